@@ -524,6 +524,40 @@ impl<'a> Cx<'a> {
         (honest, devs)
     }
 
+    /// Enumerate every deviation script with at most `dmax` deviated generators (menus are
+    /// taken from the run that precedes the last deviation, i.e. they are the alternatives
+    /// available in that state). Calls `visit(script, verdict)` for the honest run and for
+    /// every deviated run. Returns the number of executions.
+    pub fn explore_devs(
+        &self,
+        inputs: &[(Target, F)],
+        probes: &[Target],
+        dmax: usize,
+        visit: &mut dyn FnMut(&[Dev], &Verdict),
+    ) -> u64 {
+        let mut n = 0u64;
+        let mut stack: Vec<Vec<Dev>> = vec![vec![]];
+        while let Some(script) = stack.pop() {
+            let out = self.run(inputs, &script, probes, script.len() < dmax);
+            if matches!(out.verdict, Verdict::Reject(Reject::DeviationNotApplicable)) {
+                continue;
+            }
+            n += 1;
+            visit(&script, &out.verdict);
+            if script.len() < dmax {
+                let start = script.last().map(|d| d.gen + 1).unwrap_or(0);
+                for g in start..out.menus.len() {
+                    for a in 0..out.menus[g] as usize {
+                        let mut s2 = script.clone();
+                        s2.push(Dev { gen: g, alt: a });
+                        stack.push(s2);
+                    }
+                }
+            }
+        }
+        n
+    }
+
     /// Replay an accepted (possibly adversarial) assignment through the real prover and
     /// the real verifier. Returns Ok(true) if a proof was produced and verified.
     pub fn prove_and_verify(&self, inputs: &[(Target, F)], devs: &[Dev]) -> anyhow::Result<bool> {
